@@ -89,6 +89,19 @@ Proof.
   - eexists. split; reflexivity.
 Qed.
 
+Lemma authorized_none_denied : forall f r auth cov n,
+  NoDup (map fst (r_layers r)) ->
+  authorized_layers f (Some r) = AZ_some auth cov ->
+  assoc n auth = None ->
+  permitted f r n = false.
+Proof.
+  intros f r auth cov n ND H A. unfold authorized_layers in H. unfold permitted.
+  destruct (r_kind r); try discriminate; inversion H; subst; clear H; try reflexivity.
+  rewrite assoc_auth_dict in A by exact ND.
+  destruct (assoc n (r_layers r)) as [p|]; [|reflexivity].
+  destruct (is_True (flag f p)); [discriminate|reflexivity].
+Qed.
+
 (* ------------------------------------------------------------------ filter_actual_layers *)
 
 Lemma filter_actual_in : forall {S} auth req (actual : list (Z * list S)) fl n lim srcs,
@@ -233,10 +246,7 @@ Proof.
     destruct (filter_actual_keeps auth req (select_map (server_layers tree) req [])) as [fl [F _]].
     { intros n srcs Hin A. destruct (mem n req) eqn:M; [|reflexivity]. exfalso.
       apply mem_true_in in M. apply (H n srcs Hin); [|exact M].
-      destruct (permitted Ft_map r n) eqn:P; [|reflexivity]. exfalso.
-      unfold authorized_layers, permitted in *. destruct (r_kind r) eqn:K; try congruence.
-      inversion AZ; subst. rewrite assoc_auth_dict in A by exact ND.
-      destruct (assoc n (r_layers r)) as [p|]; [|discriminate]. rewrite P in A. discriminate. }
+      apply (authorized_none_denied _ _ _ _ _ ND AZ A). }
     rewrite F. eexists. split; [reflexivity|].
     intros n Hin. rewrite in_map_iff in Hin. destruct Hin as [[[n' lim] s] [Heq Hin]]. cbn in Heq. subst n'.
     apply in_flatten_entries in Hin. destruct Hin as [srcs [Hin Hs]].
@@ -552,7 +562,7 @@ Proof.
   { unfold layer_px. destruct (lm_clip m) eqn:C.
     - rewrite T. reflexivity.
     - destruct CM as [CM|CM]; [discriminate|]. rewrite CM. reflexivity. }
-  unfold merge_px. cbn [loop_px]. unfold step_px. rewrite L, O.
+  unfold merge_px, global_clip_px. cbn [loop_px]. unfold step_px. rewrite L, O.
   destruct (create_mode o) eqn:CMo; cbn [imode_eqb].
   - (* RGB result *)
     pose proof (create_px_rgb_alpha o CMo) as AB.
@@ -561,10 +571,10 @@ Proof.
     assert (P : paste_mask_px false (dr, dg, db, 255) (sr, sg, sb, 255) = (sr, sg, sb, 255)).
     { unfold paste_mask_px. rewrite !blend8_full by assumption. reflexivity. }
     rewrite P. destruct G as [G|G]; subst gout; [reflexivity|].
-    unfold global_clip_px. cbn [set_a px_a]. exact P.
+    cbn [set_a px_a]. exact P.
   - rewrite ac_px_opaque_src by assumption.
     destruct G as [G|G]; subst gout; [reflexivity|].
-    unfold global_clip_px. destruct (create_px o) as [[[dr dg] db] da]. destruct s as [[[sr sg] sb] sa].
+    destruct (create_px o) as [[[dr dg] db] da]. destruct s as [[[sr sg] sb] sa].
     cbn [px_a] in A. subst sa. cbn [set_a px_a]. destruct S as (Hr & Hg & Hb & Ha).
     unfold paste_mask_px. rewrite !blend8_full by (unfold byte in *; lia). reflexivity.
 Qed.
